@@ -1,4 +1,22 @@
 // Contract overlay for unit `sources`
+//@ item Event::signals
+//@ header
+    pub fn signals(&self) -> (r: FmIter<Signal>)
+        // the signals of an event are exactly its signal tags, in order (the CLI quits on an unmapped interrupt/terminate found this way)
+        ensures r.v@ == filter_map_seq(self.tags@, |t: Tag| match t { Tag::Signal(s) => Some(s), _ => None::<Signal> }), // OBL:C01+C08.event.signals_are_the_signal_tags
+//@ closure 0
+|p: &Tag| -> (vx_r: Option<Signal>) ensures vx_r == (match *p { Tag::Signal(s) => Some(s), _ => None::<Signal> })
+//@ closure_ghost 0
+Ghost(|t: Tag| match t { Tag::Signal(s) => Some(s), _ => None::<Signal> })
+//@ item Event::paths
+//@ header
+    pub fn paths(&self) -> (r: FmIter<(PathS, Option<FileType>)>)
+        // the paths of an event are exactly its path tags with their file types, in order (what the filterers look at)
+        ensures r.v@ == filter_map_seq(self.tags@, |t: Tag| match t { Tag::Path { path, file_type } => Some((path, file_type)), _ => None::<(PathS, Option<FileType>)> }), // OBL:C01+C03+C11.event.paths_are_the_path_tags
+//@ closure 0
+|p: &Tag| -> (vx_r: Option<(PathS, Option<FileType>)>) ensures vx_r == (match *p { Tag::Path { path, file_type } => Some((path, file_type)), _ => None::<(PathS, Option<FileType>)> })
+//@ closure_ghost 0
+Ghost(|t: Tag| match t { Tag::Path { path, file_type } => Some((path, file_type)), _ => None::<(PathS, Option<FileType>)> })
 //@ item Event::is_empty
 //@ header
     pub fn is_empty(&self) -> (r: bool)
